@@ -151,7 +151,7 @@ def pipeline(chk):
         env = {}
         if mod == "MC_FsOptimizer":
             env["OUT_FILE"] = os.path.join(chk.scratch, "fsopt.json")
-        res = chk.add_tlc(name, tlc.run(mod, cfg, workers=16, env=env, scratch=chk.scratch, timeout=7200))
+        res = chk.add_tlc(name, tlc.run(mod, cfg, workers=16, env=env, scratch=chk.scratch, timeout=7200, coverage=True))
         if not res.completed:
             chk.spec_violation(name, res)
     neg = tlc.run("Neg_FsOptimizer", "Neg_FsOptimizer", workers=2, scratch=chk.scratch)
